@@ -157,7 +157,42 @@ def run(ctx: Context, col) -> None:
     construct = "create_range_space"
     # the dense-grid idiom np.indices(D).reshape(len(D), -1).T + M enumerates the same rows in the same order as
     # product(*[arange(M[i], M[i] + D[i])]): bring it to that form (an explicit narrow dtype of the offsets is not the same thing)
-    from ..terms import NARROW_INT_DTYPES, indices_space
+    from ..terms import NARROW_INT_DTYPES, indices_space, meshgrid_space
+    # a space chosen between alternative constructions (by size, by dimension count): every alternative must be the documented enumeration
+    if space[0] == "ite":
+        leaves, stack_ = [], [space]
+        while stack_:
+            x_ = stack_.pop()
+            if x_[0] == "ite":
+                stack_ += [x_[3], x_[2]]
+            else:
+                leaves.append(x_)
+        verdicts = []
+        for leaf in leaves:
+            mg = meshgrid_space(leaf)
+            if mg is not None:
+                rng_, ix_ = mg
+                if ix_ == "xy":
+                    col.add("R19.3", construct, file, fn.lineno, False,
+                            "one construction of the space is np.stack(np.meshgrid(*ranges), axis=-1).reshape(N, dim) with the default indexing='xy': "
+                            "the first two axes of the grid are swapped, so for two or more dimensions the rows are not in row-major order of the "
+                            "ranges while the index function (ravel_multi_index) is - listed vectors map to other vectors' rows", text="space term")
+                    return
+                leaf = ("app", "itertools.product", (("star", rng_),))
+            verdicts.append(leaf)
+        if len({repr(alpha_norm(v)) for v in verdicts}) != 1:
+            raise AnalysisError("create_range_space: the space is chosen between constructions that are not the same enumeration as terms: "
+                                + " | ".join(show_norm(v)[:90] for v in verdicts))
+        space = verdicts[0]
+    else:
+        mg = meshgrid_space(space)
+        if mg is not None:
+            if mg[1] == "xy":
+                col.add("R19.3", construct, file, fn.lineno, False,
+                        "the space is np.stack(np.meshgrid(*ranges), axis=-1).reshape(N, dim) with the default indexing='xy': the first two axes are "
+                        "swapped, the rows are not in row-major order of the ranges while the index function is", text="space term")
+                return
+            space = ("app", "itertools.product", (("star", mg[0]),))
     grid = indices_space(space)
     if grid is not None:
         d_, m_, dt_ = grid
